@@ -25,6 +25,7 @@ RULE = (
     " Also: statement-boundary delays inside toasty's tile I/O; short histories in which updaters exit while others contend; a 105 s (d"
     "ilated) and a real 2.6 s hold; updaters with different SLURM_* environments; 'stage' histories = the real MultiTanProcessor / Mult"
     'iWcsProcessor in parallel with every input landing in the same tile(s), incl. one worker that starts late.'
+    " Round 8: 'mixspell' histories - updaters spell the pyramid directory differently (trailing separator, relative path, '..' detour, symbolic link)."
 )
 ASSUMPTIONS = ["unique contribution ids make the history unambiguous", "body delay inside the critical section is legitimate caller behaviour"]
 MODES = {
